@@ -164,10 +164,7 @@ func (p *Progress) Add(total int64, filler BarFiller, options ...BarOption) (*Ba
 		if wb := bs.waitBar; wb != nil && !wb.dropped {
 			ps.queueBars[wb] = append(ps.queueBars[wb], bar)
 		} else {
-			if wb != nil {
-				// bar to wait for is gone already, take its place right away
-				bar.priority = wb.priority
-			}
+			// if bar to wait for is gone already, there is no place to take
 			ps.hm.push(bar, true)
 		}
 		ps.idCount++
@@ -397,10 +394,12 @@ func (s *pState) flush(cw *cwriter.Writer, height int, iter <-chan *Bar) error {
 	}()
 
 	// bar which isn't pushed back hands over its place to the queued ones, if any
-	drop := func(b *Bar) {
+	drop := func(b *Bar, inherit bool) {
 		b.dropped = true
 		for _, qb := range s.queueBars[b] {
-			qb.priority = b.priority
+			if inherit {
+				qb.priority = b.priority
+			}
 			survivors = append(survivors, survivor{qb, true})
 		}
 		delete(s.queueBars, b)
@@ -438,7 +437,7 @@ func (s *pState) flush(cw *cwriter.Writer, height int, iter <-chan *Bar) error {
 		case 1:
 			b.cancel()
 			if len(s.queueBars[b]) != 0 {
-				drop(b)
+				drop(b, true)
 			} else if s.popCompleted && !frame.noPop {
 				b.priority = s.popPriority
 				s.popPriority++
@@ -446,19 +445,20 @@ func (s *pState) flush(cw *cwriter.Writer, height int, iter <-chan *Bar) error {
 			} else if !frame.rmOnComplete {
 				survivors = append(survivors, survivor{b, false})
 			} else {
-				drop(b)
+				drop(b, true)
 			}
 		case 2:
 			if s.popCompleted && !frame.noPop {
 				popCount += usedRows
-				drop(b)
+				// b.priority is popPriority by now, not to be inherited
+				drop(b, false)
 				continue
 			}
 			fallthrough
 		default:
 			if frame.shutdown != 0 && len(s.queueBars[b]) != 0 {
 				// bars queued after bar's cancellation
-				drop(b)
+				drop(b, true)
 			} else {
 				survivors = append(survivors, survivor{b, false})
 			}
